@@ -37,6 +37,14 @@ Proof.
   rewrite (zmax_list_app _ _ _ (cy c0) (cy c1)) by discriminate. reflexivity.
 Qed.
 
+Definition escf (e : cell * list Z) : fragment := fs_frag (escaped_fragspan e).
+Definition gnode (s : Q) (g : list fragment) : node := Elem (zs "g"%string) [] (map (fragment_node s) g).
+Lemma escaped_shift_z kz nz e : escaped_fragspan (shift_cell kz nz (fst e), snd e) = shift_fs kz nz (escaped_fragspan e).
+Proof.
+  destruct e as [c t]. unfold escaped_fragspan, shift_fs; cbn [fst snd fs_span fs_frag shift_frag ctstart ctcontent]. f_equal.
+  unfold shift_span. rewrite map_map. apply map_ext. intros [i ch]. unfold shift_cc, shift_cell; cbn [fst snd cx cy]. f_equal. f_equal. lia.
+Qed.
+
 Section Stack.
 Variables (A B : list Z) (k g : nat) (css : list (list Z * list Z)) (cbA cbB cb : cellbuffer).
 Hypothesis G2 : (2 <= g)%nat.
@@ -142,9 +150,6 @@ Proof.
   destruct e as [c t]. unfold escaped_fragspan, shift_fs; cbn [fst snd fs_span fs_frag shift_frag ctstart ctcontent]. f_equal.
   unfold shift_span. rewrite map_map. apply map_ext. intros [i ch]. unfold shift_cc, shift_cell; cbn [fst snd cx cy]. f_equal. f_equal. lia.
 Qed.
-
-Definition escf (e : cell * list Z) : fragment := fs_frag (escaped_fragspan e).
-Definition gnode (s : Q) (g : list fragment) : node := Elem (zs "g"%string) [] (map (fragment_node s) g).
 
 (** C10 for a stack, from the text to the nodes of the document *)
 Theorem stacked_drawing (s : Q) :
